@@ -60,7 +60,33 @@ def _key(pc, extra):
     return (tuple(p.get_id() for p in pc), extra.get_id())
 
 
-def check_sat(pc, extra, timeout_ms=5000):
+def has_quantifier(t):
+    k = t.get_id()
+    if k in _QCACHE:
+        return _QCACHE[k]
+    r = False
+    stack = [t]
+    seen = set()
+    while stack:
+        x = stack.pop()
+        if z3.is_quantifier(x):
+            r = True
+            break
+        i = x.get_id()
+        if i in seen:
+            continue
+        seen.add(i)
+        stack.extend(x.children())
+    _QCACHE[k] = r
+    _KEEP.append(t)
+    return r
+
+
+_QCACHE = {}
+_AXCACHE = {}
+
+
+def check_sat(pc, extra, timeout_ms=2000):
     """sat / unsat / unknown of (pc and extra)."""
     k = _key(pc, extra)
     if k in _CACHE:
@@ -93,17 +119,22 @@ class St:
         self.oracle = None
         self.symcls = []        # symbolic class-id terms in play
         self.classes = set()    # concrete ClassInfo mentioned
+        self.targets = set()    # classes used as the second argument of a subclass test
         self.reads = set()      # ambient / global reads (for determinism frames)
+        self.tags = {}          # term id -> constructor name learnt from assumed recognisers
+        self._tagkeep = []
         self.events = []        # free-form ghost event log (host list of tuples)
 
     # -- snapshots -------------------------------------------------------------------------
     def snapshot(self):
         return (list(self.pc), self.h.copy(), self.nalloc, dict(self.ghost), dict(self.gmemo),
                 len(self.oracle.trail) if self.oracle else 0, list(self.symcls), set(self.classes),
-                set(self.reads), list(self.events))
+                set(self.reads), list(self.events), dict(self.tags), set(self.targets))
 
     def restore(self, snap, keep_trail=False):
-        (pc, h, nalloc, ghost, gmemo, ntrail, symcls, classes, reads, events) = snap
+        (pc, h, nalloc, ghost, gmemo, ntrail, symcls, classes, reads, events, tags, targets) = snap
+        self.targets = set(targets)
+        self.tags = dict(tags)
         self.pc = list(pc)
         self.h = h.copy()
         self.nalloc = nalloc
@@ -118,34 +149,78 @@ class St:
 
     # -- logic -----------------------------------------------------------------------------
     def class_axioms(self):
-        """Ground facts of the subclass relation for the concrete classes mentioned, and the
-        upward-closure instances for the symbolic class ids in play."""
+        """Subclass relation: ground facts (mentioned class x class used as a test target) and, for the
+        symbolic class ids in play, reflexivity + upward closure along the known hierarchy."""
+        key = (frozenset(c.cid for c in self.classes), frozenset(c.cid for c in self.targets),
+               tuple(t.get_id() for t in self.symcls))
+        if key in _AXCACHE:
+            return _AXCACHE[key]
         ax = []
         cl = sorted(self.classes, key=lambda c: c.cid)
+        tg = sorted(self.targets, key=lambda c: c.cid)
         for a in cl:
-            for b in cl:
+            for b in tg:
                 ax.append(issub(a.cid, b.cid) == z3.BoolVal(a.is_sub(b)))
         for s in self.symcls:
             ax.append(issub(s, s))
-            for a in cl:
-                for b in cl:
-                    if a is not b and a.is_sub(b):
-                        ax.append(z3.Implies(issub(s, a.cid), issub(s, b.cid)))
+            for a in tg:
+                for b in a.mro()[1:]:
+                    ax.append(z3.Implies(issub(s, a.cid), issub(s, b.cid)))
+        c = z3.Int("c!cls")
+        for a in tg:
+            for b in a.mro()[1:]:
+                ax.append(z3.ForAll([c], z3.Implies(issub(c, a.cid), issub(c, b.cid)), patterns=[issub(c, a.cid)]))
+        _AXCACHE[key] = ax
         return ax
 
     def full_pc(self):
-        return list(self.pc) + self.class_axioms()
+        return list(self.pc) + list(self.h.axioms) + self.class_axioms()
 
     def assume(self, f):
         if z3.is_true(f):
             return
         self.pc.append(f)
+        self._learn(f)
+
+    def _learn(self, f):
+        """record recogniser facts is_<tag>(v) that are conjuncts of an assumed formula"""
+        stack = [f]
+        n = 0
+        while stack and n < 64:
+            n += 1
+            x = stack.pop()
+            if z3.is_and(x):
+                stack.extend(x.children())
+            elif z3.is_app(x) and x.decl().kind() == z3.Z3_OP_DT_IS and x.num_args() == 1 and x.arg(0).sort() == V:
+                nm = x.decl().params()[0].name() if x.decl().params() else None
+                if nm:
+                    self.tags[x.arg(0).get_id()] = nm
+                    self._tagkeep.append(x.arg(0))
 
     def feasible(self, f):
-        return check_sat(self.full_pc(), f) != "unsat"
+        """pruning only: quantified hypotheses are dropped (more paths explored, never fewer)"""
+        pc = [p for p in self.pc + self.class_axioms() if not has_quantifier(p)]
+        return check_sat(pc, f) != "unsat"
 
     def valid(self, f):
-        return check_sat(self.full_pc(), z3.Not(f)) == "unsat"
+        """dispatch-time validity: decided on the quantifier-free part of the pc (+ heap/class axioms).
+        Fewer hypotheses => 'valid' answers stay sound; a missed validity only costs precision."""
+        pc = [p for p in self.pc + self.class_axioms() if not has_quantifier(p)]
+        return check_sat(pc, z3.Not(f)) == "unsat"
+
+    def valid_full(self, f, timeout_ms=1000):
+        return check_sat(self.full_pc(), z3.Not(f), timeout_ms) == "unsat"
+
+    def model_value(self, term):
+        """value of `term` in some model of the quantifier-free part of the pc (a guess to be confirmed)"""
+        s = z3.Solver()
+        s.set("timeout", 2000)
+        for p in self.full_pc():
+            if not has_quantifier(p):
+                s.add(p)
+        if s.check() == z3.sat:
+            return s.model().eval(term, model_completion=True)
+        return None
 
     def decide(self, cond, label=""):
         """Fork on a z3 Bool; prunes infeasible sides; adds the chosen side to the pc."""
@@ -176,10 +251,13 @@ class St:
             return 0
         return self.oracle.choose(n, label)
 
-    def mention(self, ci):
+    def mention(self, ci, target=False):
         if isinstance(ci, O.ClassInfo):
-            for c in ci.mro():
-                self.classes.add(c)
+            self.classes.add(ci)
+            if target:
+                for c in ci.mro():
+                    self.targets.add(c)
+                    self.classes.add(c)
 
     # -- allocation ------------------------------------------------------------------------
     def alloc(self, kind, cls=None):
@@ -193,14 +271,30 @@ class St:
     def new_dict(self):
         rid = self.alloc(K_DICT)
         self.h.ddom = z3.Store(self.h.ddom, rid, z3.K(V, z3.BoolVal(False)))
-        self.h.dord = z3.Store(self.h.dord, rid, z3.Empty(VSeq))
+        self.h.dord = z3.Store(self.h.dord, rid, EMPTY_ARR)
         self.h.dlen = z3.Store(self.h.dlen, rid, 0)
         return vref(rid)
 
-    def new_list(self, seq=None):
+    def new_list(self, sq=None):
         rid = self.alloc(K_LIST)
-        self.h.lseq = z3.Store(self.h.lseq, rid, seq if seq is not None else z3.Empty(VSeq))
+        if sq is None:
+            sq = Sq(EMPTY_ARR, 0)
+        self.h.larr = z3.Store(self.h.larr, rid, sq.arr)
+        self.h.llen = z3.Store(self.h.llen, rid, sq.n)
         return vref(rid)
+
+    def list_sq(self, v):
+        rid = V.id(v)
+        return Sq(z3.Select(self.h.larr, rid), z3.Select(self.h.llen, rid))
+
+    def set_list(self, v, sq):
+        rid = V.id(v)
+        self.h.larr = z3.Store(self.h.larr, rid, sq.arr)
+        self.h.llen = z3.Store(self.h.llen, rid, sq.n)
+
+    def dict_order(self, d):
+        rid = V.id(d)
+        return Sq(z3.Select(self.h.dord, rid), z3.Select(self.h.dlen, rid))
 
     def new_set(self, dom=None, n=None):
         rid = self.alloc(K_SET)
@@ -220,6 +314,14 @@ class St:
         rid = self.alloc(K_INST, cls)
         self.mention(cls)
         return vref(rid)
+
+    def has_term(self, name, rid):
+        """has[name][rid], with the 'fresh objects start without attributes' axiom applied syntactically"""
+        t = z3.simplify(z3.Select(self.h.hasf(name), rid))
+        if z3.is_app(t) and t.decl().kind() == z3.Z3_OP_SELECT and z3.is_const(t.arg(0)) and z3.is_int_value(t.arg(1)):
+            if t.arg(1).as_long() > self.h.floor:
+                return z3.BoolVal(False)
+        return t
 
     def wf_read(self, v):
         """Heap well-formedness for a value read out of the heap: a reference it carries was
